@@ -344,7 +344,19 @@ func ruleC13_7(c *Ctx) {
 	}
 	// made for every request the decoder hands out: the make dominates every return of a non-nil request
 	always := map[*types.Var]bool{}
-	for _, m := range makes[dec] {
+	decMakes := append([]mk{}, makes[dec]...)
+	// a constructor helper of Decode (`resp := newRequestMsg(c, msg, n)`) that makes the map on each of its paths
+	for _, g := range p.family(dec) {
+		if g == dec {
+			continue
+		}
+		for _, m := range makes[g] {
+			if li := lift(m.in, dec); li != nil && onEveryPath(m.in) {
+				decMakes = append(decMakes, mk{m.f, li})
+			}
+		}
+	}
+	for _, m := range decMakes {
 		ok := true
 		n := 0
 		for _, r := range returnsReachable(dec) {
@@ -433,12 +445,18 @@ func ruleC14_12(c *Ctx) {
 	c.examined(len(tk.Blocks))
 	isPoolMap := func(v ssa.Value) bool { _, ok := fieldLoad(v, pool); return ok }
 	var rebuild, changes []ssa.Instruction
+	origOf := map[ssa.Instruction]ssa.Instruction{} // place in ticker → the instruction itself (they differ inside a helper)
 	rangesPools := false
 	p.allInstrsDeep(tk, func(in ssa.Instruction) {
 		li := lift(in, tk)
 		if li == nil {
 			return
 		}
+		if li != in {
+			// several instructions of one helper share their call site: keep them apart
+			li = in
+		}
+		origOf[li] = in
 		switch x := in.(type) {
 		case *ssa.Store:
 			if fa, ok := x.Addr.(*ssa.FieldAddr); ok && fieldVar(fa.X.Type(), fa.Field) == addrs {
@@ -452,6 +470,40 @@ func ruleC14_12(c *Ctx) {
 					}
 				}
 				cands = append(cands, flowRoots(x.Val, nil)...)
+				// the rebuild in a helper: `ProxyAddrs = poolAddrs(ProxyAddrs[:0], ProxyPool)`
+				if call, ok := strip(x.Val).(*ssa.Call); ok {
+					if h := call.Call.StaticCallee(); h != nil && p.isHelper(h) {
+						withBinding(h, call.Call.Args, func() {
+							allInstrs(h, func(hin ssa.Instruction) {
+								if ex, ok := hin.(*ssa.Extract); ok && ex.Index == 1 {
+									if nx, ok := ex.Tuple.(*ssa.Next); ok {
+										if rg, ok := nx.Iter.(*ssa.Range); ok && isPoolMap(rg.X) {
+											// … and the key reaches the returned slice
+											for _, hr := range returnsReachable(h) {
+												for _, root := range flowRoots(results(hr.(*ssa.Return))[0], nil) {
+													if strip(root) == ssa.Value(ex) {
+														rangesPools = true
+													}
+												}
+												if call2, ok := strip(results(hr.(*ssa.Return))[0]).(*ssa.Phi); ok {
+													for _, e := range call2.Edges {
+														if ap, ok := e.(*ssa.Call); ok && len(ap.Call.Args) == 2 {
+															for _, el := range varargElems(ap.Call.Args[1]) {
+																if strip(el) == ssa.Value(ex) {
+																	rangesPools = true
+																}
+															}
+														}
+													}
+												}
+											}
+										}
+									}
+								}
+							})
+						})
+					}
+				}
 				for _, r := range cands {
 					if ex, ok := strip(r).(*ssa.Extract); ok {
 						if nx, ok := ex.Tuple.(*ssa.Next); ok {
@@ -483,10 +535,19 @@ func ruleC14_12(c *Ctx) {
 	for _, m := range changes {
 		after, reaches := false, false
 		for _, a := range rebuild {
-			if canReach(a, m) {
+			// compared where both are: in one function directly, otherwise at their places in ticker
+			x, y := a, m
+			if outermost(a.Parent()) != outermost(m.Parent()) {
+				x, y = lift(a, tk), lift(m, tk)
+				if x == nil || y == nil || x == y {
+					after = true // cannot be ordered: reported
+					continue
+				}
+			}
+			if canReach(x, y) {
 				after = true
 			}
-			if canReach(m, a) {
+			if canReach(y, x) {
 				reaches = true
 			}
 		}
@@ -933,68 +994,161 @@ func ruleC09_8(c *Ctx) {
 			continue
 		}
 		c.examined(len(fn.Blocks))
-		nParam := ssa.Value(fn.Params[1])
-		dependsOnN := func(v ssa.Value) bool {
-			for _, r := range flowRoots(v, nil) {
-				if r == nParam {
+		nret := 0
+		// views(g, isN): the returns of g (result #0), with isN telling which values of g depend on the n asked for; a
+		// return that hands on a helper's result is judged by the helper's returns (its parameters that receive
+		// n-dependent arguments are its n)
+		var views func(g *ssa.Function, isN map[ssa.Value]bool, depth int)
+		views = func(g *ssa.Function, isN map[ssa.Value]bool, depth int) {
+			var depN func(v ssa.Value, isN map[ssa.Value]bool, d int) bool
+			depN = func(v ssa.Value, isN map[ssa.Value]bool, d int) bool {
+				if v == nil || d > 6 {
+					return false
+				}
+				if isN[v] {
+					return true // (before strip: a helper's parameter may be bound to another caller's argument)
+				}
+				v = strip(v)
+				if isN[v] {
 					return true
 				}
-			}
-			return false
-		}
-		// writes of the current read into the cache: cache.Write(c.buffer[...])
-		var curWrites []ssa.Instruction
-		allInstrs(fn, func(in ssa.Instruction) {
-			call, ok := in.(*ssa.Call)
-			if !ok || call.Call.IsInvoke() || len(call.Call.Args) != 2 {
-				return
-			}
-			if callee := call.Call.StaticCallee(); callee == nil || callee.Name() != "Write" {
-				return
-			}
-			if sl, ok := strip(call.Call.Args[1]).(*ssa.Slice); ok {
-				if _, is := fieldLoad(sl.X, bufF); is {
-					curWrites = append(curWrites, in)
+				switch x := v.(type) {
+				case *ssa.Extract:
+					// n normalised by a helper that returns several values (`inBufferLen, n, err := c.clampToReadable(n)`):
+					// the component depends on n if some return of the helper puts an n-dependent value there
+					if call, ok := x.Tuple.(*ssa.Call); ok {
+						if h := call.Call.StaticCallee(); h != nil && p.isHelper(h) && h.Blocks != nil {
+							sub := map[ssa.Value]bool{}
+							for i, a := range call.Call.Args {
+								if i < len(h.Params) && depN(a, isN, d+1) {
+									sub[h.Params[i]] = true
+								}
+							}
+							for _, hr := range returnsReachable(h) {
+								rs := results(hr.(*ssa.Return))
+								if x.Index < len(rs) && depN(rs[x.Index], sub, d+1) {
+									return true
+								}
+							}
+							return false
+						}
+					}
+				case *ssa.Phi:
+					for _, e := range x.Edges {
+						if depN(e, isN, d+1) {
+							return true
+						}
+					}
+					return false
+				case *ssa.BinOp:
+					return depN(x.X, isN, d+1) || depN(x.Y, isN, d+1)
 				}
-			}
-		})
-		nret := 0
-		for _, r := range returnsReachable(fn) {
-			rs := results(r.(*ssa.Return))
-			if len(rs) != 2 || isNilConst(rs[0]) {
-				continue
-			}
-			nret++
-			v := strip(rs[0])
-			name := fmt.Sprintf("conn.%s: returned view #%d", m, nret)
-			switch x := v.(type) {
-			case *ssa.Slice:
-				c.check(x.High != nil && dependsOnN(x.High), name, c.at(r), "cut to the n bytes asked for",
-					"the returned view "+expr(v)+" is not cut to n: the decoder is given more or fewer bytes than it asked for")
-			case *ssa.Call:
-				callee := x.Call.StaticCallee()
-				if callee == nil || callee.Name() != "Bytes" {
-					c.bad(name, c.at(r), "the returned view "+expr(v)+" is neither a slice cut to n nor the filled cache")
-					continue
-				}
-				// the leftover alone suffices, or the current read was appended
-				okG := guardHas(guardsAt(r.Block()), func(g Guard) bool {
-					x, op, y, ok := cmpGuard(g)
-					return ok && (op == token.GEQ && dependsOnN(y) && !dependsOnN(x) || op == token.LEQ && dependsOnN(x) && !dependsOnN(y))
-				})
-				okW := false
-				for _, w := range curWrites {
-					if dominatesInstr(w, r) {
-						okW = true
+				for _, r := range flowRoots(v, nil) {
+					if isN[r] {
+						return true
 					}
 				}
-				c.check(okG || okW, name, c.at(r), "cache = leftover (+ head of the current read unless the leftover has n bytes)",
-					"the cache is returned without the bytes of the current read although the leftover alone may be shorter than n", withGuards(guardsAt(r.Block())))
-			default:
-				c.bad(name, c.at(r), "the returned view "+expr(v)+" is not cut to the n bytes asked for (n <= 0 means everything pending: leftover plus the current read): e.g. `if len(tail) == 0 { return head }` hands the decoder the leftover only, "+
-					"a reply whose last bytes have just arrived still looks incomplete and is delivered one read event late - when nothing else arrives from that backend, never")
+				return false
+			}
+			dependsOnN := func(v ssa.Value) bool { return depN(v, isN, 0) }
+			// writes of the current read into the cache: cache.Write(c.buffer[...])
+			var curWrites []ssa.Instruction
+			allInstrs(g, func(in ssa.Instruction) {
+				call, ok := in.(*ssa.Call)
+				if !ok || call.Call.IsInvoke() || len(call.Call.Args) != 2 {
+					return
+				}
+				if callee := call.Call.StaticCallee(); callee == nil || callee.Name() != "Write" {
+					return
+				}
+				if sl, ok := strip(call.Call.Args[1]).(*ssa.Slice); ok {
+					if _, is := fieldLoad(sl.X, bufF); is {
+						curWrites = append(curWrites, in)
+					}
+				}
+			})
+			// the leftover alone has n bytes: n <= X, X >= n, n - X <= 0 (X independent of n)
+			suffices := func(g Guard) bool {
+				x, op, y, ok := cmpGuard(g)
+				if !ok {
+					return false
+				}
+				if op == token.GEQ && dependsOnN(y) && !dependsOnN(x) || op == token.LEQ && dependsOnN(x) && !dependsOnN(y) {
+					return true
+				}
+				if bo, isB := strip(x).(*ssa.BinOp); isB && bo.Op == token.SUB && dependsOnN(bo.X) && !dependsOnN(bo.Y) && isZero(y) && op == token.LEQ {
+					return true
+				}
+				return false
+			}
+			for _, r := range returnsReachable(g) {
+				rs := results(r.(*ssa.Return))
+				if len(rs) == 0 || isNilConst(rs[0]) {
+					continue
+				}
+				if _, isSlice := rs[0].Type().Underlying().(*types.Slice); !isSlice {
+					continue
+				}
+				v := strip(rs[0])
+				if call, ok := v.(*ssa.Call); ok && depth < 2 {
+					if h := call.Call.StaticCallee(); h != nil && p.isHelper(h) && h.Blocks != nil {
+						sub := map[ssa.Value]bool{}
+						for i, a := range call.Call.Args {
+							if i < len(h.Params) && dependsOnN(a) {
+								sub[h.Params[i]] = true
+							}
+						}
+						c.touch(h)
+						views(h, sub, depth+1)
+						continue
+					}
+				}
+				nret++
+				name := fmt.Sprintf("conn.%s: returned view #%d", m, nret)
+				switch x := v.(type) {
+				case *ssa.Slice:
+					c.check(x.High != nil && dependsOnN(x.High), name, c.at(r), "cut to the n bytes asked for",
+						"the returned view "+expr(v)+" is not cut to n: the decoder is given more or fewer bytes than it asked for")
+				case *ssa.Call:
+					callee := x.Call.StaticCallee()
+					if callee == nil || callee.Name() != "Bytes" {
+						c.bad(name, c.at(r), "the returned view "+expr(v)+" is neither a slice cut to n nor the filled cache")
+						continue
+					}
+					// the leftover alone suffices, or the current read was appended - on every way into the return
+					covered := func(b *ssa.BasicBlock, extra []Guard) bool {
+						if guardHas(append(guardsAt(b), extra...), suffices) {
+							return true
+						}
+						for _, w := range curWrites {
+							if w.Block() == b || w.Block().Dominates(b) {
+								return true
+							}
+						}
+						return false
+					}
+					okV := covered(r.Block(), nil)
+					if !okV && len(r.Block().Preds) > 1 {
+						okV = true
+						for _, pr := range r.Block().Preds {
+							var extra []Guard
+							if f, ok := edgeFact(pr, r.Block()); ok {
+								extra = append(extra, f)
+							}
+							if !covered(pr, extra) {
+								okV = false
+							}
+						}
+					}
+					c.check(okV, name, c.at(r), "cache = leftover (+ head of the current read unless the leftover has n bytes)",
+						"the cache is returned without the bytes of the current read although the leftover alone may be shorter than n", withGuards(guardsAt(r.Block())))
+				default:
+					c.bad(name, c.at(r), "the returned view "+expr(v)+" is not cut to the n bytes asked for (n <= 0 means everything pending: leftover plus the current read): e.g. `if len(tail) == 0 { return head }` hands the decoder the leftover only, "+
+						"a reply whose last bytes have just arrived still looks incomplete and is delivered one read event late - when nothing else arrives from that backend, never")
+				}
 			}
 		}
+		views(fn, map[ssa.Value]bool{fn.Params[1]: true}, 0)
 		if nret < 2 {
 			c.undecided("conn."+m+": returned views", p.pos(fn.Pos()), fmt.Sprintf("%d found", nret))
 		}
@@ -1429,6 +1583,53 @@ func ruleC11_10(c *Ctx) {
 			at = in
 			if isShutdownReturn(succ) {
 				found = true
+				return
+			}
+			// the test in a predicate helper (`if isAuthFailure(r.Type) { … return ErrEngineShutdown }`): the helper's
+			// answer on this edge, then the caller's edge for that answer
+			h := in.Parent()
+			if h == sread || !p.isHelper(h) || h.Signature.Results().Len() != 1 {
+				return
+			}
+			var answer *bool
+			for b, i := succ, 0; b != nil && i < 4; i++ {
+				if r, ok := b.Instrs[len(b.Instrs)-1].(*ssa.Return); ok {
+					if k, isK := results(r)[0].(*ssa.Const); isK && k.Value != nil {
+						v := constBoolValue(k)
+						answer = &v
+					}
+					break
+				}
+				if len(b.Succs) != 1 {
+					break
+				}
+				b = b.Succs[0]
+			}
+			if answer == nil {
+				return
+			}
+			for _, site := range p.helperSites(h) {
+				cv, ok := site.Instr.(ssa.Value)
+				if !ok {
+					continue
+				}
+				for _, b := range site.Fn.Blocks {
+					cif, ok := b.Instrs[len(b.Instrs)-1].(*ssa.If)
+					if !ok {
+						continue
+					}
+					ct := true
+					if stripNot(cif.Cond, &ct) != cv {
+						continue
+					}
+					edge := b.Succs[0]
+					if ct != *answer {
+						edge = b.Succs[1]
+					}
+					if isShutdownReturn(edge) {
+						found = true
+					}
+				}
 			}
 		})
 		pos := p.pos(sread.Pos())
